@@ -1,7 +1,10 @@
 package main
 
 import (
+	"crypto"
+	"fmt"
 	cose "github.com/veraison/go-cose"
+	"sync"
 )
 
 // installSig replaces the placeholder run (bytes of value fill) by the signature. The specification may have
@@ -126,19 +129,19 @@ func decodeMsg(kind string, b []byte) (*decoded, error) {
 	switch kind {
 	case "sign1":
 		d.s1 = &cose.Sign1Message{}
-		err = d.s1.UnmarshalCBOR(b)
+		err = viaRecv(b, d.s1.UnmarshalCBOR)
 	case "sign1u":
 		d.s1u = &cose.UntaggedSign1Message{}
-		err = d.s1u.UnmarshalCBOR(b)
+		err = viaRecv(b, d.s1u.UnmarshalCBOR)
 	case "sign":
 		d.sn = &cose.SignMessage{}
-		err = d.sn.UnmarshalCBOR(b)
+		err = viaRecv(b, d.sn.UnmarshalCBOR)
 	case "sig":
 		d.sg = &cose.Signature{}
-		err = d.sg.UnmarshalCBOR(b)
+		err = viaRecv(b, d.sg.UnmarshalCBOR)
 	case "csig":
 		d.cs = &cose.Countersignature{}
-		err = d.cs.UnmarshalCBOR(b)
+		err = viaRecv(b, d.cs.UnmarshalCBOR)
 	}
 	if err != nil {
 		return nil, err
@@ -285,10 +288,7 @@ func init() {
 				}
 				installed = installSig(wire, byte(num(sm["fill"])), sig, sigop)
 			}
-			v, err := cose.NewVerifier(cose.Algorithm(alg), key.Public())
-			if err != nil {
-				fatal("NewVerifier(%d): %v", alg, err)
-			}
+			v := sharedVerifier(alg, key.Public())
 			vs = append(vs, &spyVerifier{name: "v", alg: cose.Algorithm(alg), inner: v, log: log})
 			slots[i] = J{"alg": alg, "tbs": sm["tbs"], "installed": installed}
 			sl = append(sl, slotT{alg, tbs, key.Public()})
@@ -404,4 +404,21 @@ func init() {
 		}
 		return ev
 	}
+}
+
+// sharedVerifier: one built-in verifier per (algorithm, key) for the whole process, used by all cases (which run in parallel) - as an
+// application verifying many messages under one key does.
+var sharedVerifiers sync.Map
+
+func sharedVerifier(alg int, pub crypto.PublicKey) cose.Verifier {
+	k := fmt.Sprintf("%d/%p", alg, pub)
+	if v, ok := sharedVerifiers.Load(k); ok {
+		return v.(cose.Verifier)
+	}
+	v, err := cose.NewVerifier(cose.Algorithm(alg), pub)
+	if err != nil {
+		fatal("NewVerifier(%d): %v", alg, err)
+	}
+	actual, _ := sharedVerifiers.LoadOrStore(k, v)
+	return actual.(cose.Verifier)
 }
